@@ -1,9 +1,10 @@
 use std::{collections::HashMap, fmt::Debug};
 
-use common_lang_types::{SelectableName, WithEmbeddedLocation};
+use common_lang_types::{SelectableName, WithEmbeddedLocation, WithLocationPostfix};
+use graphql_lang_types::NameValuePair;
 use isograph_lang_types::{
-    ArgumentKeyAndValue, ConstantValue, NonConstantValue, ScalarSelectionDirectiveSet,
-    SelectionFieldArgument, SelectionType, VariableDeclaration, VariableNameWrapper,
+    ArgumentKeyAndValue, NonConstantValue, ScalarSelectionDirectiveSet, SelectionFieldArgument,
+    SelectionType, VariableDeclaration, VariableNameWrapper,
 };
 use prelude::Postfix;
 
@@ -63,20 +64,19 @@ impl VariableContext {
                     }
                 };
 
+                // The argument may be a variable, or a list or object that contains variables:
+                // every variable is replaced by the parent context's value for it, which must exist.
                 let child_value =
-                    // TODO avoid cloning
-                    match ConstantValue::try_from(matching_arg.item.clone().value.item) {
-                        Ok(_) => matching_arg.item.value.item.clone(),
-                        Err(e) => self
-                            .0
-                            .get(&e)
+                    substitute_variables(&matching_arg.item.value.item, &|variable_name| {
+                        self.0
+                            .get(&variable_name)
                             .expect(
                                 "Parent context has missing variable. \
                                 This should have been validated already. \
                                 This is indicative of a bug in Isograph.",
                             )
-                            .clone(),
-                    };
+                            .clone()
+                    });
 
                 (variable_name, child_value)
             })
@@ -140,33 +140,51 @@ impl<TCompilationProfile: CompilationProfile> FlattenedDataModelSelectable<TComp
     }
 }
 
+/// Replace every variable in `value`, also inside lists and objects, by `value_of(variable)`.
+fn substitute_variables(
+    value: &NonConstantValue,
+    value_of: &impl Fn(VariableNameWrapper) -> NonConstantValue,
+) -> NonConstantValue {
+    match value {
+        NonConstantValue::Variable(variable_name) => value_of(*variable_name),
+        NonConstantValue::List(items) => NonConstantValue::List(
+            items
+                .iter()
+                .map(|item| substitute_variables(&item.item, value_of).with_location(item.location))
+                .collect(),
+        ),
+        NonConstantValue::Object(name_value_pairs) => NonConstantValue::Object(
+            name_value_pairs
+                .iter()
+                .map(|name_value_pair| NameValuePair {
+                    name: name_value_pair.name,
+                    value: substitute_variables(&name_value_pair.value.item, value_of)
+                        .with_location(name_value_pair.value.location),
+                })
+                .collect(),
+        ),
+        other => other.clone(),
+    }
+}
+
 fn transform_selection_field_argument_into_merged_arg_with_child_context(
     arg: ArgumentKeyAndValue,
     variable_context: &VariableContext,
 ) -> ArgumentKeyAndValue {
-    if let NonConstantValue::Variable(used_variable_name) = arg.value {
-        // Look up the variable in the variables in context, and use that value
-        //
-        // This will give us the *actual value* that we need for the merged selection set.
-        let value = variable_context.0.get(&used_variable_name);
-
-        return match value {
-            Some(value) => ArgumentKeyAndValue {
-                key: arg.key,
-                value: value.clone(),
-            },
-            None => {
+    // Look up every used variable (also inside lists and objects) in the variables in context,
+    // and use that value. This gives us the *actual value* that we need for the merged selection set.
+    ArgumentKeyAndValue {
+        key: arg.key,
+        value: substitute_variables(&arg.value, &|used_variable_name| {
+            variable_context
+                .0
+                .get(&used_variable_name)
+                .cloned()
                 // There is no variable. The value is missing! It had better be optional.
                 // TODO we should validate that
-                ArgumentKeyAndValue {
-                    key: arg.key,
-                    value: NonConstantValue::Null,
-                }
-            }
-        };
+                .unwrap_or(NonConstantValue::Null)
+        }),
     }
-
-    arg
 }
 
 pub fn transform_arguments_with_child_context(
